@@ -66,16 +66,22 @@ fn flow<S: Sch>(cfg: &KeyCfg, seed: u64, big: Option<S::P>) -> Result<Outputs, S
     Ok(out)
 }
 
-fn flow_special(which: &str, seed: u64) -> Result<Outputs, String> {
+fn flow_special(which_full: &str, seed: u64) -> Result<Outputs, String> {
     let mut out: Outputs = Vec::new();
     let r = rho_stream::<Fr381>(seed, 1, 80);
+    let odd = which_full.ends_with("-odd");
+    let which = which_full.trim_end_matches("-odd");
+    // (KZG max degree, polynomial length), (MLP setup/trim variables), (STR key, polynomial length)
+    let (kd, kl) = if odd { (18usize, 19usize) } else { (33, 34) };
+    let (mn, mt) = if odd { (3usize, 3usize) } else { (5, 4) };
+    let (sk, sl) = if odd { (23usize, 19usize) } else { (40, 34) };
     match which {
         "KZG" => {
-            let pp = kzg_setup(33, true, seed, 0);
+            let pp = kzg_setup(kd, true, seed, 0);
             out.push(("params".into(), ser(&pp)));
-            let powers = kzg_powers(&pp, 34, 4);
+            let powers = kzg_powers(&pp, kl, 4);
             let vk = kzg_vk(&pp);
-            let p = UP::<Fr381>::from_coefficients_slice(&r[..34]);
+            let p = UP::<Fr381>::from_coefficients_slice(&r[..kl]);
             for h in [None, Some(2usize)] {
                 let mut rng = seed_rng(seed, 0);
                 let (c, st) = Kzg::commit(&powers, &p, h, Some(&mut rng as &mut dyn RngCore)).map_err(|e| format!("{:?}", e))?;
@@ -89,13 +95,13 @@ fn flow_special(which: &str, seed: u64) -> Result<Outputs, String> {
         }
         "MLP" => {
             let mut rng = seed_rng(seed, 10);
-            let pp = Mlp::setup(5, &mut rng);
+            let pp = Mlp::setup(mn, &mut rng);
             out.push(("params".into(), ser(&pp)));
-            let (ck, vk) = Mlp::trim(&pp, 4);
+            let (ck, vk) = Mlp::trim(&pp, mt);
             out.push(("committer-key".into(), ser(&ck)));
             out.push(("verifier-key".into(), ser(&vk)));
-            let p = crate::sch::ml_shapes::<Fr381>(4, seed).pop().unwrap().1;
-            let z = crate::sch::ml_points::<Fr381>(4, seed)[0].1.clone();
+            let p = crate::sch::ml_shapes::<Fr381>(mt, seed).pop().unwrap().1;
+            let z = crate::sch::ml_points::<Fr381>(mt, seed)[0].1.clone();
             let c = Mlp::commit(&ck, &p);
             let pf = Mlp::open(&ck, &p, &z);
             out.push(("commitment".into(), ser(&c)));
@@ -105,9 +111,9 @@ fn flow_special(which: &str, seed: u64) -> Result<Outputs, String> {
             out.push(("decisions".into(), format!("{}/{}", d.class(), d2.class()).into_bytes()));
         }
         "STR" => {
-            let ck = str_key(40, 3, seed);
+            let ck = str_key(sk, 3, seed);
             let vk = SVk::from(&ck);
-            let coeffs = r[..34].to_vec();
+            let coeffs = r[..sl].to_vec();
             let c = ck.commit(&coeffs);
             out.push(("commitment".into(), ser(&c.verif_inner())));
             let (v, pf) = ck.open(&coeffs, &r[40]);
@@ -129,7 +135,11 @@ fn flow_special(which: &str, seed: u64) -> Result<Outputs, String> {
     Ok(out)
 }
 
-pub const ITEMS: [&str; 11] = ["MAR", "SON", "IPA", "PST", "HYR", "LIG", "MLL", "BRK", "KZG", "MLP", "STR"];
+/// Every flow at two sizes: the round one and (suffix `-odd`) one with odd / non-power-of-two lengths.
+pub const ITEMS: [&str; 22] = [
+    "MAR", "SON", "IPA", "PST", "HYR", "LIG", "MLL", "BRK", "KZG", "MLP", "STR", "MAR-odd", "SON-odd", "IPA-odd", "PST-odd", "HYR-odd", "LIG-odd", "MLL-odd", "BRK-odd", "KZG-odd", "MLP-odd",
+    "STR-odd",
+];
 
 pub fn run_item(item: &str, seed: u64) -> Result<Outputs, String> {
     let r = catch(|| match item {
@@ -141,6 +151,14 @@ pub fn run_item(item: &str, seed: u64) -> Result<Outputs, String> {
         "LIG" => flow::<SLig>(&KeyCfg::uni(64, 64, 1, None), seed, Some(UP::<Fr381>::from_coefficients_vec(rho_stream::<Fr381>(seed, 9, 41)))),
         "MLL" => flow::<SMll>(&KeyCfg::ml(6), seed, None),
         "BRK" => flow::<SBrk>(&KeyCfg::ml(6), seed, None),
+        "MAR-odd" => flow::<SMar>(&KeyCfg::uni(13, 11, 3, Some(vec![5, 11])), seed, None),
+        "SON-odd" => flow::<SSon>(&KeyCfg::uni(13, 11, 3, Some(vec![5, 11])), seed, None),
+        "IPA-odd" => flow::<SIpa>(&KeyCfg::uni(7, 5, 1, None), seed, None),
+        "PST-odd" => flow::<SPst>(&KeyCfg::mv(2, 5, 5), seed, None),
+        "HYR-odd" => flow::<SHyr>(&KeyCfg::ml(4), seed, None),
+        "LIG-odd" => flow::<SLig>(&KeyCfg::uni(37, 37, 1, None), seed, Some(UP::<Fr381>::from_coefficients_vec(rho_stream::<Fr381>(seed, 9, 23)))),
+        "MLL-odd" => flow::<SMll>(&KeyCfg::ml(5), seed, None),
+        "BRK-odd" => flow::<SBrk>(&KeyCfg::ml(7), seed, None),
         other => flow_special(other, seed),
     });
     match r {
